@@ -617,6 +617,8 @@ static int restore_interior_string (char **val, svalue_t * sv) {
                   return ROB_STRING_ERROR;
                 *newp = '\0';
                 *val = cp;
+                if ((size_t) (newp - start) > (size_t) CONFIG_INT (__MAX_STRING_LENGTH__))
+                  return ROB_STRING_ERROR; /* a save file is not a way around MaxStringLength */
                 sv->u.string = new_string (len = (newp - start),
                                            "restore_string");
                 strcpy (sv->u.string, start);
@@ -639,6 +641,8 @@ static int restore_interior_string (char **val, svalue_t * sv) {
   *val = cp;
   *--cp = '\0';
   len = (size_t)(cp - start);
+  if (len > (size_t) CONFIG_INT (__MAX_STRING_LENGTH__))
+    return ROB_STRING_ERROR; /* a save file is not a way around MaxStringLength */
   sv->u.string = new_string (len, "restore_string");
   strcpy (sv->u.string, start);
   sv->type = T_STRING;
@@ -1258,6 +1262,8 @@ int restore_string (char *val, svalue_t * sv) {
                 if ((c == '\0') || (*cp != '\0'))
                   return ROB_STRING_ERROR;
                 *newp = '\0';
+                if ((size_t) (newp - start) > (size_t) CONFIG_INT (__MAX_STRING_LENGTH__))
+                  return ROB_STRING_ERROR; /* a save file is not a way around MaxStringLength */
                 sv->u.string = new_string (newp - start, "restore_string");
                 strcpy (sv->u.string, start);
                 sv->type = T_STRING;
@@ -1280,6 +1286,8 @@ int restore_string (char *val, svalue_t * sv) {
     return ROB_STRING_ERROR;
   *cp = '\0';
   len = (size_t)(cp - start);
+  if (len > (size_t) CONFIG_INT (__MAX_STRING_LENGTH__))
+    return ROB_STRING_ERROR; /* a save file is not a way around MaxStringLength */
   sv->u.string = new_string (len, "restore_string");
   strcpy (sv->u.string, start);
   sv->type = T_STRING;
